@@ -45,12 +45,14 @@ PARTIAL = [
     "shape of the from_state_diagram model) and ttno_bonds_eq_vertex_counts; the identification of a TTNO's edge "
     "cut with such a factorisation and the optimality of the elimination + minimum cover (rank reached) are not proved",
     "genericity is sampled (random complex values), not symbolic",
-    "numeric (symbol-free) Gamma: proved for all sizes - a reduced matrix without zero row/column is square and diagonal "
-    "(sge_numeric_fully_reduced_partial: loop invariants of the deletion-free last pass), a fully reduced matrix has "
-    "minimum cover = number of non-zeros = rank M' >= rank Gamma (cover_of_fully_reduced, rank_of_fully_reduced, "
-    "sge_numeric_rank_le_reduced); NOT proved: that M' has no zero line when Gamma has none, and rank M' <= rank Gamma "
-    "(one-sided invertibility of Op_l, Op_r) - both decided per input by the numgauss stream; 'M' is always fully "
-    "reduced' is false of the code (sge_numeric_not_fully_reduced, Gamma with zero columns)",
+    "numeric (symbol-free) Gamma: PROVED for all sizes (builders B22, B31) - rank M' = rank Gamma for every rational "
+    "rectangular Gamma (sge_numeric_rank_eq_reduced: the rank is an invariant of every primitive of the run); if Gamma "
+    "has no zero row/column then M' has none (sge_numeric_no_zero_lines), is square and diagonal of size rank Gamma "
+    "(sge_numeric_fully_reduced), and the C14 model of minimum_vertex_cover on supp M' returns exactly rank Gamma "
+    "vertices (sge_numeric_bond_eq_rank), also after the keep-the-better comparison with the cover of supp Gamma "
+    "(sge_numeric_bond_keep_better).  Not covered by a theorem: Gamma WITH a zero row/column ('M' is fully "
+    "reduced' is false of the code there: sge_numeric_not_fully_reduced; 'minimum cover of supp M' = rank' holds in "
+    "every sampled case, numgauss stream) and symbolic Gamma (F-C12a/c)",
 ]
 ASSUMPTIONS = ["numerical rank threshold 1e-9 relative to the largest singular value; dense dimension <= 72 (quick) / 216",
                "the classification of F-C12c asks the Lean model of gaussian_elimination of property C13 through the "
@@ -555,6 +557,10 @@ def run_numeric_case(ctx, case, model_out: Optional[List[str]] = None):
             if v != M0[i][j]:
                 ctx.oracle_fail(case, f"Op_l * M' * Op_r differs from Gamma at ({i},{j}): {v} != {M0[i][j]}")
                 return
+    # (b') theorem `sge_numeric_rank_eq_reduced` (every rational Gamma): rank M' = rank Gamma
+    rk_red = frac_rank([[Fraction(x) for x in row] for row in A])
+    if rk_red != rk:
+        ctx.oracle_fail(case, f"rank of the reduced matrix {rk_red} differs from rank(Gamma) = {rk}")
     # (c) the bond the cut creates = rank over Q
     supp = [(i, j) for i in range(p) for j in range(q) if A[i][j] != 0]
     supp_raw = [(i, j) for i in range(m) for j in range(n) if M0[i][j] != 0]
@@ -569,7 +575,9 @@ def run_numeric_case(ctx, case, model_out: Optional[List[str]] = None):
     ctx.tally("numeric pattern", ("partial permutation" if pp else "NOT a partial permutation")
               + (" (zero line in Gamma)" if zl else ""))
     # theorem `sge_numeric_fully_reduced_partial`: hypothesis "M' has no zero row / column" validated on the live call;
-    # its conclusion (square, non-zero entries exactly on the diagonal) must then hold for the library's M'
+    # its conclusion (square, non-zero entries exactly on the diagonal) must then hold for the library's M';
+    # theorems `sge_numeric_no_zero_lines` / `sge_numeric_fully_reduced` / `sge_numeric_bond_eq_rank`: for a Gamma
+    # without zero line the reduced matrix has none and is r x r diagonal, r = rank Gamma (branch `not zl` below)
     out_zl = has_zero_line(A)
     ctx.tally("numeric reduced matrix has a zero line", out_zl)
     if not out_zl:
